@@ -405,7 +405,7 @@ func RunConc(sc *ConcScenario, want Want) *ConcResult {
 			if slots == nil {
 				res.LinSkipped++
 			} else {
-				lr := checkLin(allRecs, st0, slots, cacheFam, now, def, sim.Seq, 20*time.Second, prefillPresent)
+				lr := checkLin(allRecs, st0, slots, cacheFam, now, def, sim.Seq, 4*time.Second, prefillPresent)
 				switch {
 				case lr.Skipped != "":
 					res.LinSkipped++
@@ -428,7 +428,7 @@ func RunConc(sc *ConcScenario, want Want) *ConcResult {
 						noRange = append(noRange, r)
 					}
 					if hasRange {
-						lr2 := checkLin(noRange, st0, slots, cacheFam, now, def, sim.Seq, 20*time.Second, prefillPresent)
+						lr2 := checkLin(noRange, st0, slots, cacheFam, now, def, sim.Seq, 4*time.Second, prefillPresent)
 						if lr2.Result == porcupine.Ok {
 							rule = "range-lin"
 						}
